@@ -1186,9 +1186,21 @@ impl<'a> Parser<'a> {
                 };
 
                 // context must be with tables.reference
-                #[allow(clippy::expect_used)]
                 let (column_start, mut row_start, column_end, mut row_end) =
-                    parse_range(&table.reference).expect("Failed parsing range");
+                    match parse_range(&table.reference) {
+                        Ok(range) => range,
+                        Err(message) => {
+                            return Node::ParseErrorKind {
+                                formula: self.lexer.get_formula(),
+                                expecting: vec![ExpectedTokens::Other],
+                                position: 0,
+                                message: format!(
+                                    "invalid table reference '{}': {message}",
+                                    table.reference
+                                ),
+                            };
+                        }
+                    };
 
                 let totals_row_count = table.totals_row_count as i32;
                 let header_row_count = table.header_row_count as i32;
